@@ -348,7 +348,7 @@ class Context(object):
         cov = {
             'obligations': len(self.theorems),
             'discharged': len(self.discharged),
-            'checker_cmd': 'cd lean && lake build BufrModel bufrdrv && lake env lean Audit.lean  (#print axioms per theorem; kernel-checked)',
+            'checker_cmd': 'cd lean && lake build bufrdrv %s && lake env lean ../.cache/Audit_%s.lean  (generated per run: `#print axioms` for every theorem of Props/%s*.lean; kernel-checked; forbidden-token grep over the import closure)' % (' '.join(prop_modules(self.prop)), self.prop, self.prop),
             'trusted_base': [
                 'Lean 4.33.0 kernel/elaborator; axioms used per theorem listed under theorem_axioms (allowed: propext, Classical.choice, Quot.sound)',
                 'compiled driver bufrdrv (Lean code generator + C toolchain) executing the model definitions',
